@@ -11,6 +11,7 @@ import (
 	"strings"
 	"strconv"
 	"sync"
+	"time"
 
 	"github.com/cinar/indicator/v2/asset"
 	"github.com/cinar/indicator/v2/backtest"
@@ -424,6 +425,14 @@ func (c13) Run(c *Case, st *Stats) []Violation {
 						}
 						os.WriteFile(fp, []byte(strings.Join(lines, "\n")+"\n"), 0o644)
 						st.Faults["asset-file-with-a-column-named-like-a-field-suffix"]++
+					}
+				}
+				if repoDir != "" && a.Seed%3 == 0 {
+					// the file's time stamp says nothing about its rows (unpacked from an archive, copied with
+					// preserved times, written by a machine with another clock)
+					old := time.Date(2001, 2, 3, 4, 5, 6, 0, time.UTC)
+					if os.Chtimes(filepath.Join(repoDir, a.Name+".csv"), old, old) == nil {
+						st.Faults["asset-file-with-an-old-modification-time"]++
 					}
 				}
 				if repoDir != "" && a.Seed%5 == 0 {
